@@ -13,6 +13,7 @@ Doc.tla     (FmtMode) canonical documents over the supported construct set: html
 """
 import sys
 
+import vlib
 from checks import tracefam
 from checks.c06 import doc_cfg
 from checks.common import confirm_with, replay_with
@@ -53,6 +54,11 @@ def regen(base, rp):
 def run(ctx):
     ctx.build_harness()
     quick = ctx.tier == "quick"
+    # the abstract writer protocol for ANY number of writes and any failure point: inductive invariant (Apalache, Proto.tla)
+    ind = ctx.apalache_inductive("Proto")
+    ctx.extra["protocol_invariant_inductive_apalache"] = {True: "yes", False: "NO", None: "not run (apalache unavailable or timed out)"}[ind]
+    if ind is False:
+        raise vlib.Infra("Proto.tla: IndInv is not inductive (a defect of the specification, not a verdict)")
     # writer machine: model check + direction A
     r = ctx.tlc("Format", model_cfg(3 if quick else 4, 6 if quick else 8), name="Format_mc", timeout=3000)
     rc, res, _ = ctx.harness(["format", "model", r["out"]], timeout=3000)
